@@ -882,6 +882,9 @@ func uncutJustified(T *Terms, ms *MemState, fn *ssa.Function, loc, restT string,
 					}
 					return false
 				}
+				if noSepOrDeadFact(T.FactsAt(x.Block())) {
+					continue // stored on a path that has already established that there is no ';'
+				}
 				if ok, w := mustCross(T, fn, x, succ, isOther, noSepOrDeadFact); !ok {
 					return false, n, w
 				}
@@ -969,6 +972,26 @@ func isValueOf(ms *MemState, fn *ssa.Function, term string, at *ssa.BasicBlock, 
 				continue
 			}
 			got := ms.ValueAlts(v, 0)
+			// a load on one path of a location whose final value has several alternatives holds one of them
+			if ld, isLoad := v.(*ssa.UnOp); isLoad && ld.Op == token.MUL && len(got) > 0 && len(got) < len(alts) {
+				if _, isField := ld.X.(*ssa.FieldAddr); isField {
+					sub := true
+					for _, g := range got {
+						in := false
+						for _, a := range alts {
+							if a == g {
+								in = true
+							}
+						}
+						if !in {
+							sub = false
+						}
+					}
+					if sub {
+						return true
+					}
+				}
+			}
 			if len(got) == len(alts) {
 				same := true
 				g := append([]string(nil), got...)
